@@ -1,7 +1,8 @@
 import HdVerif.Model.Json
 import HdVerif.Model.FrameAccess
 import HdVerif.Model.Offsets
-open Lean HdVerif HdVerif.Drv HdVerif.Bits HdVerif.Gen HdVerif.FrameAccess HdVerif.Offsets
+import HdVerif.Model.EncapBytes
+open Lean HdVerif HdVerif.Drv HdVerif.Bits HdVerif.Gen HdVerif.FrameAccess HdVerif.Offsets HdVerif.EncapBytes
 
 def getFrags (j : Json) (k : String) : Except String (List (List Nat)) := do
   let a ← getArr j k
@@ -59,6 +60,21 @@ def handlers : List (String × Handler) := [
   ("readFrameRawEnc", fun j => do
     let r := readFrameRaw (← getFrags j "frags") (← getNatList j "table") (← getNat j "i")
     pure (exceptToJson natsToJson r)),
+  ("lazyRawEnc", fun j => do
+    -- the lazy reader on the BYTES of the file from the first byte of the Pixel Data element's value on
+    let eot ← match j.getObjVal? "eot" with
+      | .ok .null => pure none
+      | .ok _ => some <$> getNatList j "eot"
+      | .error _ => pure none
+    let r := lazyRawEnc (← getNatList j "pd") eot (← getNat j "n") (← getInt j "i")
+    pure (exceptToJson natsToJson r)),
+  ("openEncapsulated", fun j => do
+    let eot ← match j.getObjVal? "eot" with
+      | .ok .null => pure none
+      | .ok _ => some <$> getNatList j "eot"
+      | .error _ => pure none
+    let r := openEncapsulated (← getNatList j "pd") eot (← getNat j "n")
+    pure (exceptToJson (fun (p : List Nat × Nat) => Json.mkObj [("table", natsToJson p.1), ("first", (p.2 : Json))]) r)),
   ("lazyRaw", fun j => do
     let r := lazyRaw (← getNatList j "pd") (← getInt j "rows") (← getInt j "cols") (← getInt j "samples")
       (← getInt j "bits") (← getInt j "n") (← getStr j "pi") (← getInt j "i")
